@@ -538,8 +538,10 @@ class HyperscanTokenizer(Tokenizer):
                 start = byte_to_str_offset[start]
                 end = byte_to_str_offset[end]
                 # match in place rather than on a slice, so that anchors and
-                # boundaries see the real context of the match
-                m = extractor.compiled_regex.match(text, start, end)
+                # boundaries see the real context of the match; do not cut
+                # the text at the end hyperscan reported (it reports every
+                # end offset, and "$" would match at an artificial end)
+                m = extractor.compiled_regex.match(text, start)
                 if m is None:
                     # hyperscan matches bytes; python may disagree, e.g. on
                     # non-ascii whitespace
